@@ -101,6 +101,9 @@ def _create_new_header(
         or set(map(str, reuse_info.spdx_expressions))
         != set(map(str, new_reuse_info.spdx_expressions))
         or not new_reuse_info.contributor_lines <= reuse_info.contributor_lines
+        # A header that declares nothing at all would not be recognised as a
+        # header the next time, and another one would be put on top of it.
+        or not new_reuse_info.contains_info()
     ):
         _LOGGER.debug(
             _(
